@@ -114,6 +114,7 @@ func (f fakeIPFS) Cat(path string) (io.ReadCloser, error) {
 	f.o.mu.Lock()
 	defer f.o.mu.Unlock()
 	f.o.reqs++
+	f.o.log = append(f.o.log, "ipfs-node:"+path)
 	e, ok := f.o.docs["ipfs-node:"+path]
 	if !ok || e.fail != "" {
 		return nil, errors.New("ipfs: not found")
@@ -423,6 +424,21 @@ func emitLoaderHistory(out *Out, r *Rng) {
 							received = append(received, recv{w, docVersion(doc), now, lt, e.alt})
 						}
 					}
+				}
+			}
+			// routing: an ipfs URL goes to the IPFS client when one is set - and only there -, otherwise to the gateway; http(s) to HTTP
+			for _, w := range requested {
+				viaNode := strings.HasPrefix(w, "ipfs-node:")
+				if strings.HasPrefix(u, "ipfs://") && cfg.ipfsCli && !viaNode {
+					why = append(why, fmt.Sprintf("load %s: an IPFS client is configured but %s was requested over HTTP", u, w))
+				}
+				if (!strings.HasPrefix(u, "ipfs://") || !cfg.ipfsCli) && viaNode {
+					why = append(why, fmt.Sprintf("load %s: the IPFS client was asked for %s", u, w))
+				}
+			}
+			if strings.HasPrefix(u, "ipfs://") && cfg.ipfsCli && err == nil {
+				if e, ok := snapshot[keyOf(u)]; !ok || e.fail != "" {
+					why = append(why, fmt.Sprintf("load %s succeeded although the IPFS client has no such document", u))
 				}
 			}
 			if cfg.cacheMode == "none" && err == nil && nreq == 0 {
